@@ -17,7 +17,7 @@ RULE = (
     "X.sum(1) exactly; bandpass = column mean; read_chan = column; dedisperse = sum_c X[t+d_c,c] for "
     "t<nsamps-maxdelay with d the delays the header reports; compute_stats/_basic: count,min,max exact and "
     "mean/var/skew/kurtosis vs two-pass float64 within the stated tolerance; returned lengths equal the defined "
-    "lengths; metamorphic: the same call with a one-block gulp gives the identical array. "
+    "lengths; metamorphic: the same call with a one-block gulp gives the identical array; reader_history: any interleaving of reductions, block reads and abandoned read plans on ONE reader object gives the same results as fresh readers. "
     "Non-trivial = the plan has >=2 blocks (gulp < nsamps); distinct by canonical case JSON."
 )
 ASSUMPTIONS = [
@@ -210,8 +210,86 @@ def check(case, ctx):
     return Info(multi, tuple(labels))
 
 
+# ------------------------------------------------------------------ histories on ONE reader object
+
+@st.composite
+def strat_history(draw, tier):
+    base = draw(strat_case(tier))
+    n = sum(base["layout"]["split"])
+    ops = []
+    for _ in range(draw(st.integers(2, 7))):
+        start = draw(st.integers(0, n - 1))
+        nsamps = None if draw(st.booleans()) else draw(st.integers(1, n - start))
+        eff = n - start if nsamps is None else nsamps
+        ops.append({"op": draw(st.sampled_from(["collapse", "bandpass", "read_chan", "dedisperse", "stats", "read_block", "abandon_plan"])),
+                    "start": start, "nsamps": nsamps, "gulp": draw(st.integers(1, eff + 2)),
+                    "x": draw(st.integers(0, 1000))})
+    base["ops"] = ops
+    return base
+
+
+def check_history(case, ctx):
+    """Any interleaving of reductions, block reads and abandoned read plans on the same reader object gives what a
+    fresh reader gives (no state leaks between calls: file position, reused buffers, cached statistics)."""
+    from sigpyproc.readers import FilReader
+
+    lay = case["layout"]
+    d = ctx.fresh_dir()
+    paths, D, _, _ = vs.write_layout(lay, d, fch1=case["fch1"], foff=case["foff"], tsamp=TSAMP)
+    N, nchans = D.shape
+    rd = FilReader(paths)
+    labels = []
+    for k, op in enumerate(case["ops"]):
+        start, nsamps, gulp = op["start"], op["nsamps"], op["gulp"]
+        eff = N - start if nsamps is None else nsamps
+        X = D[start : start + eff].astype(np.float64)
+        kw = {"gulp": gulp, "start": start, "nsamps": nsamps, "quiet": True, "description": "v"}
+        ctxt = f"N={N} nchans={nchans} nbits={lay['nbits']} history step {k}: {op} after {[o['op'] for o in case['ops'][:k]]}"
+        name = op["op"]
+        try:
+            if name == "collapse":
+                got = rd.collapse(**kw).data
+                require(got.shape == (eff,) and np.array_equal(got.astype(np.float64), X.sum(1)), "history:collapse", ctxt)
+            elif name == "bandpass":
+                got = rd.bandpass(**kw).data
+                require(np.allclose(got.astype(np.float64), X.mean(0), rtol=3e-7, atol=1e-30), "history:bandpass", ctxt)
+            elif name == "read_chan":
+                c = op["x"] % nchans
+                got = rd.read_chan(c, **kw).data
+                require(got.shape == (eff,) and np.array_equal(got.astype(np.float64), X[:, c]), "history:read_chan", ctxt)
+            elif name == "dedisperse":
+                dm = dm_for_maxdelay(op["x"] % max(1, eff // 2 + 1), case["fch1"], case["foff"], nchans)
+                delays = np.asarray(rd.header.get_dmdelays(dm)).reshape(-1).astype(np.int64)
+                if delays.min() < 0 or int(delays.max()) >= eff:
+                    continue
+                got = rd.dedisperse(dm, **kw).data
+                want = oracles.dedisp_sum(X, delays)
+                require(got.shape == want.shape and np.array_equal(got.astype(np.float64), want), "history:dedisperse", ctxt)
+            elif name == "stats":
+                rd.compute_stats(**kw)
+                moment_check(rd.chan_stats, oracles.two_pass_moments(X), X, "history:compute_stats", full=True)
+            elif name == "read_block":
+                got = rd.read_block(start, eff).data
+                require(got.shape == (nchans, eff) and np.array_equal(got.astype(np.float64), X.T), "history:read_block", ctxt)
+            else:
+                it = rd.read_plan(**kw)
+                for j, (nr, ii, arr) in enumerate(it):
+                    want = D[start + j * gulp : start + j * gulp + nr]
+                    require(np.array_equal(arr.reshape(nr, nchans), want), "history:plan-block", ctxt)
+                    if j >= op["x"] % 3:
+                        break  # abandon the iterator mid-way
+        except Violation:
+            raise
+        except Exception as exc:  # noqa: BLE001
+            raise Violation(f"history:{name}:raised:{type(exc).__name__}", f"{ctxt}: {exc!r}") from exc
+        labels.append(name)
+    return Info(len(case["ops"]) >= 2, tuple(labels))
+
+
 def subchecks(tier):
     return [
         SubCheck("reductions", check, strategy=lambda t: strat_case(t),
                  examples={"quick": 1800, "thorough": 100000}, shards={"quick": 8, "thorough": 16}),
+        SubCheck("reader_history", check_history, strategy=lambda t: strat_history(t),
+                 examples={"quick": 600, "thorough": 40000}, shards={"quick": 4, "thorough": 16}),
     ]
